@@ -29,9 +29,9 @@ from .. import env, probe
 from ..oracles import geodesy as geo
 
 RULE = (
-    "case = one ground station (latitude class x longitude class x altitude class, one date) with 14 targets "
-    "generated in its local frame (8 octants, near-zenith, near-nadir, horizon, cardinal azimuth, 2 free; range "
-    "log-uniform 100 m..1e9 m; target handed over in ITRF/WGS84/EME2000/TEME), 4 simulated measures on 4 of "
+    "case = one ground station (latitude class x longitude class x altitude class, one date) with 28 targets "
+    "generated in its local frame (2 x [8 octants, near-zenith, near-nadir, horizon, cardinal azimuth, 2 free]; range "
+    "log-uniform 100 m..1e9 m; target handed over in ITRF/WGS84/EME2000/TEME), 4 simulated measures x 2 path lengths on ~8 of "
     "them, and 3 mask tables (2..20 nodes) with all nodes, all midpoints, 0, 2pi and out-of-range azimuths "
     "queried; distinct = digest of (lat, lon, alt, date, target specs, tables); non-trivial = at least one "
     "target with range > 0 off the station axes was converted"
@@ -51,7 +51,10 @@ ASSUMPTIONS = [
     "statement defines two values at azimuth 0)",
 ]
 
-STATIONS_PER_PROCESS = 190  # + <= 10 failed ndarray-mask registrations  (brief: <= ~200 per subprocess)
+# create_station costs O(N^2..3) in the number N of registered stations (route tables of the two
+# Node graphs are rebuilt on every link: 1 ms at N=0, 40 ms at N=40, 0.4 s at N=120, 2.4 s at N=200),
+# so a subprocess registers only 48 (+ <= 3 failed ndarray-mask registrations) and works them hard.
+STATIONS_PER_PROCESS = 48
 NDARRAY_EVERY = 19
 
 LAT_CLASSES = ["uniform", "p89.9", "uniform-south", "m89.9", "zero", "polarN", "polarS", "tiny"]
@@ -60,13 +63,13 @@ ALT_CLASSES = ["uniform", "m400", "zero", "p9000"]
 TARGET_CLASSES = (
     [f"oct{'+-'[(k >> 2) & 1]}{'+-'[(k >> 1) & 1]}{'+-'[k & 1]}" for k in range(8)]
     + ["zenith", "nadir", "horizon", "cardinal", "free", "free"]
-)
+) * 2
 FRAMES_IN = ["ITRF", "EME2000", "TEME", "WGS84"]
 INERTIAL_1980 = ["EME2000", "TEME", "TOD", "MOD"]
 
 
 def jobs(tier):
-    shards = 8 if tier == "quick" else 112
+    shards = 16 if tier == "quick" else 160
     n = shards * STATIONS_PER_PROCESS
     return [
         {"name": "geo-real", "n": n, "shards": shards, "eop": "real"},
@@ -91,7 +94,8 @@ def requirements(tier):
         req["station-inertial:" + f] = 1000 * k
     req["station-inertial:GCRF"] = 50 * k
     req["station-derivative"] = 1000 * k
-    req["station-placed"] = 2000 * k
+    req["station-placed"] = 1400 * k
+    req["revisit-earlier-station"] = 1000 * k
     req["topo-evaluated"] = 20000 * k
     req["below-horizon"] = 5000 * k
     for m in ("Range", "Azimut", "Elevation", "Doppler"):
@@ -106,8 +110,8 @@ def requirements(tier):
     req["mask-given:create-ndarray"] = 50 * k
     req["mask-first-az-zero"] = 100 * k
     # the monitors really sat on the real functions
-    req["call:create_station"] = 2000 * k
-    req["call:_geodetic_to_cartesian"] = 2000 * k
+    req["call:create_station"] = 1400 * k
+    req["call:_geodetic_to_cartesian"] = 1400 * k
     req["call:get_mask"] = 50000 * k
     req["call:TopocentricOrientation._to_parent"] = 20000 * k
     return req
@@ -123,7 +127,7 @@ def setup(ctx, job):
     from beyond.constants import Earth
     from beyond.frames import stations, orient
 
-    st = {"a": float(Earth.r), "f": float(Earth.f), "probes": [], "axis_cache": {}}
+    st = {"a": float(Earth.r), "f": float(Earth.f), "probes": [], "earlier": []}
 
     def counter(name):
         def post(a, k, res):
@@ -319,16 +323,19 @@ def run_case(ctx, job, idx, rng, st):
         return
     ctx.count("mask-given:" + how0)
 
+    n_before = sum(v["count"] for v in ctx.violations.values())
     station_checks(ctx, job, idx, rng, st, station, ost, date, base_w)
     topo_checks(ctx, idx, rng, st, station, ost, date, targets, base_w, StateVector, Orbit, measures)
+    revisit_check(ctx, rng, st, date, StateVector)
+    if sum(v["count"] for v in ctx.violations.values()) == n_before:
+        # only stations that were right when fresh are re-examined later (separates "wrong geometry"
+        # from "corrupted by later registrations")
+        st["earlier"].append((station, ost, base_w))
 
     # ---------------------------------------------------------------- masks
     mask_checks(ctx, rng, station, mask0, how0, base_w)
     for tab in mask_more:
-        try:
-            station.mask = np.array([tab[0], tab[1]])
-        except Exception as exc:  # plain attribute assignment: cannot fail
-            raise
+        station.mask = np.array([tab[0], tab[1]])  # as the repository's own tests do
         ctx.count("mask-given:assign-ndarray")
         mask_checks(ctx, rng, station, tab, "assign-ndarray", base_w)
 
@@ -440,8 +447,10 @@ def station_checks(ctx, job, idx, rng, st, station, ost, date, base_w):
     # 5-point stencil, h = 32 s: truncation (omega h)^4/30 * 465 m/s = 4e-10 m/s; the library's
     # sidereal angle is evaluated on a float MJD/century (time quantisation up to ~1 us => 0.5 mm),
     # noise measured <= 4e-5 m/s; precession+nutation of the axis adds <= 7e-12 rad/s * 6.4e6 =
-    # 5e-5 m/s that the library's velocity map neglects by design (C02 allowance).  tol 5e-3 m/s:
-    # 100x noise, and 1e-5 of the 465 m/s effect a wrong/missing rate block has.
+    # 5e-5 m/s that the library's velocity map neglects by design (C02 allowance), nutation's
+    # short-period terms as much again: measured worst 2.9e-4 m/s over 1e4 stations.  tol 5e-2 m/s:
+    # 170x the measured floor, and 1e-4 of the 465 m/s effect a wrong/missing rate block has
+    # (the fine structure of the velocity, LOD included, is decided by the omega x r monitor above).
     try:
         h = 32.0
         p = {}
@@ -451,7 +460,7 @@ def station_checks(ctx, job, idx, rng, st, station, ost, date, base_w):
         deriv = (p[-2] - 8 * p[-1] + 8 * p[1] - p[2]) / (12 * h)
         v0 = probe.arr(origin.copy(frame="EME2000"))[3:]
         ctx.count("station-derivative")
-        ctx.resid("station:derivative", float(np.linalg.norm(deriv - v0)), 5e-3, key="C11/station-inertial-motion-derivative",
+        ctx.resid("station:derivative", float(np.linalg.norm(deriv - v0)), 5e-2, key="C11/station-inertial-motion-derivative",
                   witness=dict(base_w, derivative=list(deriv), velocity=list(v0), h=h),
                   msg=f"d/dt of the station's EME2000 position {list(deriv)} != its EME2000 velocity {list(v0)}")
     except Exception as exc:
@@ -543,6 +552,40 @@ def topo_checks(ctx, idx, rng, st, station, ost, date, targets, base_w, StateVec
             measure_checks(ctx, rng, station, given, date, lk, (tol_pos, tol_el, tol_az, tol_rr), w2, measures, sfx)
 
 
+def revisit_check(ctx, rng, st, date, StateVector):
+    """A station registered earlier in this process still answers right after more stations (global
+    Orientation/Center class attributes, route tables) have been registered."""
+    if not st["earlier"]:
+        return
+    station, ost, w0 = rng.choice(st["earlier"])
+    az, el, rho, vel = gen_target(rng, "free")
+    fr = rng.choice(FRAMES_IN)
+    r_spec, v_spec = ost.target(az, el, rho, vel)
+    w = dict(w0, revisit_target={"az": az, "el": el, "rho": rho, "vel": list(vel), "frame": fr}, registered_since=len(st["earlier"]))
+    try:
+        given = StateVector(list(r_spec) + list(v_spec), date, "cartesian", "ITRF")
+        if fr not in ("ITRF", "WGS84"):
+            given = StateVector(_lib_vec(given.copy(frame=fr)), date, "cartesian", fr)
+        itrf = _lib_vec(given.copy(frame="ITRF"))
+        sph = probe.arr(given.copy(frame=station, form="spherical"))
+    except Exception as exc:
+        ctx.violation("C11/topo-earlier-station-raises", dict(w, exc=repr(exc)), f"conversion to an earlier station raised {exc!r}")
+        return
+    ctx.count("revisit-earlier-station")
+    lk = ost.look(itrf[:3], itrf[3:])
+    L = geo.norm(itrf[:3]) + geo.norm(ost.ecef)
+    tol_pos = max(1e-6, 1e-13 * L)  # as in topo_checks
+    cel = max(math.cos(lk["el"]), 1e-12)
+    tol_ang = 1e-10 + tol_pos / lk["range"]
+    bad = (
+        abs(float(sph[0]) - lk["range"]) > tol_pos
+        or abs(float(sph[2]) - lk["el"]) > tol_ang + 1e-13 / cel
+        or geo.angdiff(-float(sph[1]), lk["az"]) > tol_ang / cel
+    )
+    ctx.expect(not bad, "C11/topo-earlier-station-corrupted", dict(w, oracle=lk, lib_spherical=list(sph)),
+               f"station {station.name} registered {len(st['earlier'])} registrations ago no longer matches the ENU computation")
+
+
 def measure_checks(ctx, rng, station, given, date, lk, tols, w, measures, sfx):
     tol_pos, tol_el, tol_az, tol_rr = tols
     for legs in (1, 2):
@@ -630,10 +673,10 @@ def mask_checks(ctx, rng, station, table, how, base_w):
         tol = 1e-12 * (1.0 + abs(slope))
         red = geo.reduce_azimuth(q)
         in_range = 0.0 <= q < geo.TWO_PI
-        if qcls in ("node",) or (in_range and red in az_t):
-            key = "C11/mask-node-value"
-        elif red == 0.0 or qcls in ("zero", "two-pi"):
+        if red == 0.0 or qcls in ("zero", "two-pi"):
             key = "C11/mask-value-at-zero-2pi"
+        elif qcls == "node" or (in_range and red in az_t):
+            key = "C11/mask-node-value"
         elif seg == "wrap":
             key = "C11/mask-wrap-segment"
         else:
